@@ -62,6 +62,34 @@ Definition otto_rel (v : val) (len : Z) : option Z :=
 Definition otto_cnt (v : val) (bound : Z) : option Z :=
   option_map (fun i => valueToRangeIndex i bound true) (otto_int64 v).
 
+(* otto_.go rangeStartEnd (Array/String slice with negativeIsZero = false, String substring with true) *)
+Definition otto_range (nz : bool) (v : val) (size : Z) : option Z := if nz then otto_cnt v size else otto_rel v size.
+Definition rangeStartEnd (args : list val) (size : Z) (nz : bool) : option (Z * Z) :=
+  match otto_range nz (nth 0 args VUndef) size with
+  | None => None
+  | Some start =>
+      match args with
+      | [_] => Some (start, size)
+      | _ => match nth 1 args VUndef with
+             | VUndef => Some (start, size)
+             | e => option_map (fun x => (start, x)) (otto_range nz e size)
+             end
+      end
+  end.
+(* otto_.go rangeStartLength (String substr) *)
+Definition rangeStartLength (args : list val) (size : Z) : option (Z * Z) :=
+  match otto_rel (nth 0 args VUndef) size with
+  | None => None
+  | Some start =>
+      match args with
+      | [_] => Some (start, size)
+      | _ => match nth 1 args VUndef with
+             | VUndef => Some (start, size)
+             | e => option_map (fun x => (start, x)) (otto_int64 e)
+             end
+      end
+  end.
+
 (* builtinArrayIndexOf: start index, None = the loop is not entered *)
 Definition otto_indexof_start (index length : Z) : option Z :=
   if index <? 0 then
@@ -174,10 +202,11 @@ Definition otto_def_array (names lens : bool) (o : obj) (k : key) (d : desc) (th
 Definition otto : dialect :=
   mkDia (otto_def_array true true) otto_rel otto_cnt otto_indexof otto_lastindexof true true true true true.
 
-(* single-deviation dialects: ES5 with exactly one of otto's departures switched on;
-   the correspondence run uses them to name the finding class of a disagreement *)
-Definition only (c : Z) : dialect :=
-  mkDia (if c =? 1 then otto_def_array true false else if c =? 8 then otto_def_array false true else def_array)
+(* ES5 with otto's departures number 1..c switched on (numbering of the finding classes,
+   see Corr.v); the correspondence run uses these to name the first departure that
+   makes a history disagree with ES5 *)
+Definition upto (c : Z) : dialect :=
+  mkDia (otto_def_array (1 <=? c) (8 <=? c))
         (dia_rel es5) (dia_cnt es5) (dia_indexof es5)
-        (if c =? 7 then otto_lastindexof else dia_lastindexof es5)
-        (c =? 2) (c =? 3) (c =? 4) (c =? 5) (c =? 6).
+        (if 7 <=? c then otto_lastindexof else dia_lastindexof es5)
+        (2 <=? c) (3 <=? c) (4 <=? c) (5 <=? c) (6 <=? c).
